@@ -113,6 +113,7 @@ struct CursorModel
                 if(rep == 3 && !(d.wrapper == W_PLAIN || d.wrapper == W_INIT || d.wrapper == W_SKIP)) d.wrapper = W_PLAIN;
                 if(d.wrapper == W_OMIT) d.wrapper = W_PLAIN; // out-of-order use is injected through displacement only
                 const bool can_write = m.kind == K_SCALAR || m.kind == K_ENUM || m.kind == K_SET;
+                if(can_write) d.value = rd(&f.bytes[(std::size_t)(b + H) + m.offset], (int)m.size, sh.big);
                 if(!call(n.level, path, (u64)b, T_FIELD, (int)i, d, required, moved, required, required, can_write, false)) return;
                 if(d.wrapper == W_PLAIN || d.wrapper == W_INIT || d.wrapper == W_SKIP)
                 {
